@@ -24,7 +24,7 @@ func init() {
 func runC04(c *core.Ctx) {
 	ks := []int{0, 1, 2, 3, 5, 9}
 	if !c.Quick() {
-		ks = []int{0, 1, 2, 3, 4, 5, 6, 7, 9, 12, 17, 33}
+		ks = []int{0, 1, 2, 3, 4, 5, 6, 7, 8, 9, 10, 12, 15, 16, 17, 24, 31, 32, 33, 64, 100}
 	}
 	n := 0
 	for _, t := range dyn.Types[:dyn.NBuiltin] {
